@@ -18,8 +18,10 @@ from datetime import datetime, timedelta, timezone
 
 EPOCH = datetime(1970, 1, 1, tzinfo=timezone.utc)  # own constant (== reactivex UTC_ZERO)
 
-KINDS = ("vts", "test", "hist")
-UNIT_US = {"vts": 1000, "test": 1_000_000, "hist": 1000}  # microseconds per model unit
+KINDS = ("vts", "test", "hist", "vtsus", "histus")
+# microseconds per model unit; the *us kinds are the same schedulers driven with microsecond-granular arguments (the
+# finest grain datetime/timedelta represent exactly; float seconds round-trip exactly at that grain for |t| < ~1e9 s)
+UNIT_US = {"vts": 1000, "test": 1_000_000, "hist": 1000, "vtsus": 1, "histus": 1}
 TEST_INTERNALS = (100, 200, 1000)  # TestScheduler.start() schedules its create/subscribe/dispose actions here
 
 
@@ -28,13 +30,13 @@ def make(kind, init=0):
     from reactivex.scheduler import HistoricalScheduler, VirtualTimeScheduler
     from reactivex.testing import TestScheduler
 
-    if kind == "vts":
+    if kind in ("vts", "vtsus"):
         return VirtualTimeScheduler(0) if init == 0 else VirtualTimeScheduler(init * UNIT_US[kind] / 1e6)
     if kind == "test":
         if init != 0:
             raise ValueError("TestScheduler always starts at 0")
         return TestScheduler()
-    if kind == "hist":
+    if kind in ("hist", "histus"):
         return HistoricalScheduler() if init == 0 else HistoricalScheduler(EPOCH + timedelta(microseconds=init * UNIT_US[kind]))
     raise ValueError(kind)
 
